@@ -381,6 +381,36 @@ def main(rep, ws, tier):
                         want = P.padd(P.pmul(A, P.psub(P.pconst(1), Tt)), P.pmul(Bb, Tt))
                         if not ctx.requal(ctx.rat(res), (want, P.pconst(1))):
                             bad = 'arm %s computes %s, expected a*(1-t) + b*t' % (PC.show_asg(asg), P.show_rat(ctx.rat(res), ctx)); break
+                    if not bad and k == 'ulerp':
+                        # ... and what makes it usable for unsigned T: on each arm the difference that is formed is the non-negative
+                        # one under that arm's condition (a - b where a > b, b - a otherwise)
+                        def diffs(z):
+                            out_ = []; seen_ = set(); st_ = [z]
+                            while st_:
+                                y_ = st_.pop()
+                                if y_.id in seen_: continue
+                                seen_.add(y_.id); st_.extend(y_.args)
+                                if y_.op == 'fadd' and len(y_.args) == 2:
+                                    for p_, q_ in ((0, 1), (1, 0)):
+                                        if y_.args[q_].op == 'fneg' and {y_.args[p_], y_.args[q_].args[0]} == {x, y}: out_.append((y_.args[p_], y_.args[q_].args[0]))
+                                if y_.op == 'sub' and set(y_.args) == {x, y}: out_.append((y_.args[0], y_.args[1]))
+                            return out_
+                        nd = 0
+                        for asg, (res,) in PC.live_cases([o]):
+                            for big_, small_ in diffs(res):
+                                nd += 1
+                                okd = False
+                                for c, v in asg.items():
+                                    if c.op in ('fcmp', 'icmp') and set(c.args) == {x, y}:
+                                        lt_first = c.attr in ('olt', 'ole', 'slt', 'sle', 'ult', 'ule')      # args[0] < args[1] when true
+                                        strict = c.attr in ('olt', 'ogt', 'slt', 'sgt', 'ult', 'ugt')
+                                        lo, hi = (c.args[0], c.args[1]) if lt_first else (c.args[1], c.args[0])
+                                        if not v: lo, hi = hi, lo            # negation: the other one is at least as large
+                                        if hi is big_ and lo is small_: okd = True
+                                if not okd:
+                                    bad = 'on the arm %s the difference %s - %s is formed, which is negative there: for unsigned T it wraps around (ulerp exists to avoid exactly this)' % (PC.show_asg(asg), T.show(big_, 2), T.show(small_, 2)); break
+                            if bad: break
+                        if not bad and nd == 0: bad = 'no difference of the end points found on the arms'
                     if not bad and k == 'lerp':
                         # ... in the convex *form* of its definition: each end point enters through one product with a weight that
                         # does not mention the end points; a + (b-a)*t is the same polynomial but cancels for |a| >> |b| at t = 1,
